@@ -673,7 +673,7 @@ def single_differs(ctx, tree, stream):
     """does the chibicc build of this one function behave differently from the reference builds?"""
     return arbitrate(ctx, to_c(tree, 0), stream)[0] == 'violation'
 
-def shrink(ctx, tree, stream, budget=45):
+def shrink(ctx, tree, stream, budget=32):
     cur = tree
     progress = True
     while progress and budget > 0:
